@@ -232,8 +232,12 @@ def allow_lists(ctx, scratch):
                 lib.append((r, rel))
     cases = [(os.path.join(root, rel), rel) for rel in layout] + [(os.path.join(r, rel), rel) for r, rel in lib]
     names_pool = ["alpha", "beta", "sub", "colorsys", "json", "decoder", "hypothesis", "zeta", "alphabet", "other"]
+    # names of directory components of the library install paths: they name no package, so they admit no library file
+    install_parts = sorted({c for r in ROOTS for c in r.split(os.sep) if c})
+    names_pool += [c for c in install_parts if c not in names_pool][-5:]
     import itertools
     lists = [[]] + [[n] for n in names_pool] + [list(c) for c in itertools.combinations(names_pool[:6], 2)][: (4 if ctx.tier == "quick" else 15)] + [["alpha", "json", "zeta"]]
+    lists.append(["alpha"] + install_parts[-2:])
     for li, names in enumerate(lists):
         if li % ctx.nshards != ctx.shard:
             continue
@@ -258,6 +262,7 @@ SCRIPT = '''
 import colorsys, json, os.path
 import {pkg}.core as core
 from {pkg}.sub import helper
+import {pkg}.__main__ as pkgmain
 def local_fn(x):
     return core.double(x)
 class LocalK:
@@ -302,6 +307,7 @@ CALLS = {
     "core.Thing.stat(3)": [("core", "Thing.stat")],
     "list(core.gen(3))": [("core", "gen")],
     "helper.triple(None)": [("sub.helper", "triple")],
+    "pkgmain.entry(5)": [("__main__", "entry")],
     "json.dumps({'a': 1})": [],
     "colorsys.hls_to_rgb(0.1, 0.2, 0.3)": [],
     "os.path.join('a', 'b')": [],
@@ -316,6 +322,8 @@ def run_script(ctx, scratch, idx, calls, allow):
     open(os.path.join(root, pkg, "sub", "__init__.py"), "w").write("")
     open(os.path.join(root, pkg, "core.py"), "w").write(PKG_CORE)
     open(os.path.join(root, pkg, "sub", "helper.py"), "w").write(PKG_HELPER)
+    # a package's own __main__ module, imported under its real dotted name: not the program's `__main__`
+    open(os.path.join(root, pkg, "__main__.py"), "w").write("def entry(x):\n    return x\n")
     script = os.path.join(root, "main_script.py")
     open(script, "w").write(SCRIPT.format(pkg=pkg, calls="\n".join(calls)))
     db = os.path.join(root, "traces.sqlite3")
@@ -449,8 +457,10 @@ def shard(ctx):
         import random
         rnd = random.Random(ctx.shard_seed(5))
         keys = sorted(CALLS)
-        for j in range(1 if q else 4):
+        for j in range(2 if q else 5):
             calls = rnd.sample(keys, rnd.randint(2, 7))
+            if "pkgmain.entry(5)" not in calls and j % 2 == 0:
+                calls.append("pkgmain.entry(5)")  # a package's own __main__ module is not the program's __main__
             allow = rnd.choice([None, None, [f"c17pkg{ctx.shard * 10 + j}"], ["sub"], ["colorsys", "core"], ["zeta"]])
             run_script(ctx, scratch, ctx.shard * 10 + j, calls, allow)
         sc = tracerun.Scratch("c17p-")
